@@ -1,0 +1,245 @@
+//! Verification hooks, compiled only with `--cfg folo_verif` (never in normal builds).
+//!
+//! The shim atomic type performs the real operation and reports it, together with the memory
+//! ordering argument the call site passed, to a process-global table of function pointers that
+//! a verification harness may install. With no table installed every shim is a plain forwarder.
+//! `before_atomic` is called before the operation (a harness uses it as a scheduling point),
+//! `after_atomic` after it with the value observed and the value written.
+
+use std::fmt;
+use std::sync::OnceLock;
+use std::sync::atomic as std_atomic;
+
+/// One atomic operation (or fence / spin hint) performed by an event.
+#[derive(Clone, Copy, Debug)]
+pub struct AtomicEvent {
+    /// Address of the atomic variable (0 for fences and spin hints).
+    pub addr: usize,
+    /// `load`, `store`, `swap`, `fetch_add`, `cas_ok`, `cas_fail`, `fence`, `spin`.
+    pub op: &'static str,
+    /// Ordering argument (success ordering for compare-exchange).
+    pub order: std_atomic::Ordering,
+    /// Failure ordering argument of a compare-exchange.
+    pub order_fail: Option<std_atomic::Ordering>,
+    /// Value read by the operation, if it reads.
+    pub observed: Option<u8>,
+    /// Value written by the operation, if it writes.
+    pub written: Option<u8>,
+}
+
+/// Table of callbacks a harness installs once per process.
+#[derive(Clone, Copy, Debug)]
+pub struct Hooks {
+    /// Called before every shim operation with the address and the operation name.
+    pub before_atomic: fn(usize, &'static str),
+    /// Called after every shim operation.
+    pub after_atomic: fn(&AtomicEvent),
+    /// An event object was initialized in place: (event address, address of its state variable).
+    pub created: fn(usize, usize),
+    /// A non-atomic part of an event is about to be accessed: (event address, part, access).
+    /// Parts: `value`, `awaiter`, `backtrace`. Access: `r`, `w` (write, move-out or drop).
+    pub cell: fn(usize, &'static str, &'static str),
+    /// `release_event` was entered: (event address, storage strategy).
+    pub release: fn(usize, &'static str),
+}
+
+static HOOKS: OnceLock<Hooks> = OnceLock::new();
+
+/// Installs the hook table. Only the first call has an effect.
+pub fn install(hooks: Hooks) {
+    let _already_installed = HOOKS.set(hooks);
+}
+
+#[inline]
+fn hooks() -> Option<&'static Hooks> {
+    HOOKS.get()
+}
+
+pub(crate) fn created(event: usize, state: usize) {
+    if let Some(h) = hooks() {
+        (h.created)(event, state);
+    }
+}
+
+pub(crate) fn cell(event: usize, part: &'static str, access: &'static str) {
+    if let Some(h) = hooks() {
+        (h.cell)(event, part, access);
+    }
+}
+
+pub(crate) fn release(event: usize, storage: &'static str) {
+    if let Some(h) = hooks() {
+        (h.release)(event, storage);
+    }
+}
+
+/// Replacement for `std::hint::spin_loop` that also reports the spin.
+pub(crate) fn spin_loop() {
+    if let Some(h) = hooks() {
+        (h.before_atomic)(0, "spin");
+        (h.after_atomic)(&AtomicEvent {
+            addr: 0,
+            op: "spin",
+            order: std_atomic::Ordering::Relaxed,
+            order_fail: None,
+            observed: None,
+            written: None,
+        });
+    }
+    std::hint::spin_loop();
+}
+
+/// Drop-in replacement for the parts of `std::sync::atomic` that the events use.
+pub(crate) mod atomic {
+    pub(crate) use std::sync::atomic::Ordering;
+
+    use super::{AtomicEvent, fmt, hooks, std_atomic};
+
+    pub(crate) fn fence(order: Ordering) {
+        if let Some(h) = hooks() {
+            (h.before_atomic)(0, "fence");
+        }
+        std_atomic::fence(order);
+        if let Some(h) = hooks() {
+            (h.after_atomic)(&AtomicEvent {
+                addr: 0,
+                op: "fence",
+                order,
+                order_fail: None,
+                observed: None,
+                written: None,
+            });
+        }
+    }
+
+    #[repr(transparent)]
+    pub(crate) struct AtomicU8(std_atomic::AtomicU8);
+
+    impl AtomicU8 {
+        pub(crate) const fn new(value: u8) -> Self {
+            Self(std_atomic::AtomicU8::new(value))
+        }
+
+        fn addr(&self) -> usize {
+            (&raw const self.0).addr()
+        }
+
+        fn before(&self, op: &'static str) {
+            if let Some(h) = hooks() {
+                (h.before_atomic)(self.addr(), op);
+            }
+        }
+
+        fn after(
+            &self,
+            op: &'static str,
+            order: Ordering,
+            order_fail: Option<Ordering>,
+            observed: Option<u8>,
+            written: Option<u8>,
+        ) {
+            if let Some(h) = hooks() {
+                (h.after_atomic)(&AtomicEvent {
+                    addr: self.addr(),
+                    op,
+                    order,
+                    order_fail,
+                    observed,
+                    written,
+                });
+            }
+        }
+
+        pub(crate) fn load(&self, order: Ordering) -> u8 {
+            self.before("load");
+            let value = self.0.load(order);
+            self.after("load", order, None, Some(value), None);
+            value
+        }
+
+        pub(crate) fn store(&self, value: u8, order: Ordering) {
+            self.before("store");
+            // The address is captured first: the object may be released by another thread as
+            // soon as the store is visible, so `self` must not be touched afterwards.
+            let addr = self.addr();
+            self.0.store(value, order);
+            if let Some(h) = hooks() {
+                (h.after_atomic)(&AtomicEvent {
+                    addr,
+                    op: "store",
+                    order,
+                    order_fail: None,
+                    observed: None,
+                    written: Some(value),
+                });
+            }
+        }
+
+        pub(crate) fn swap(&self, value: u8, order: Ordering) -> u8 {
+            self.before("swap");
+            let addr = self.addr();
+            let previous = self.0.swap(value, order);
+            if let Some(h) = hooks() {
+                (h.after_atomic)(&AtomicEvent {
+                    addr,
+                    op: "swap",
+                    order,
+                    order_fail: None,
+                    observed: Some(previous),
+                    written: Some(value),
+                });
+            }
+            previous
+        }
+
+        pub(crate) fn fetch_add(&self, value: u8, order: Ordering) -> u8 {
+            self.before("fetch_add");
+            let addr = self.addr();
+            let previous = self.0.fetch_add(value, order);
+            if let Some(h) = hooks() {
+                (h.after_atomic)(&AtomicEvent {
+                    addr,
+                    op: "fetch_add",
+                    order,
+                    order_fail: None,
+                    observed: Some(previous),
+                    written: Some(previous.wrapping_add(value)),
+                });
+            }
+            previous
+        }
+
+        pub(crate) fn compare_exchange(
+            &self,
+            current: u8,
+            new: u8,
+            success: Ordering,
+            failure: Ordering,
+        ) -> Result<u8, u8> {
+            self.before("cas");
+            let addr = self.addr();
+            let result = self.0.compare_exchange(current, new, success, failure);
+            if let Some(h) = hooks() {
+                let (op, observed, written) = match result {
+                    Ok(previous) => ("cas_ok", previous, Some(new)),
+                    Err(actual) => ("cas_fail", actual, None),
+                };
+                (h.after_atomic)(&AtomicEvent {
+                    addr,
+                    op,
+                    order: success,
+                    order_fail: Some(failure),
+                    observed: Some(observed),
+                    written,
+                });
+            }
+            result
+        }
+    }
+
+    impl fmt::Debug for AtomicU8 {
+        fn fmt(&self, f: &mut fmt::Formatter<'_>) -> fmt::Result {
+            self.0.fmt(f)
+        }
+    }
+}
